@@ -1679,8 +1679,13 @@ func (x *Exec) obligeAlt(fr *Frame, st *State, name, kind, prop, alt string, c *
 		o.Src = c.Src
 		o.Pos = fmt.Sprintf("%s:%d", c.File, c.Line)
 	}
-	if len(o.Props) == 0 {
-		o.Props = x.defProps
+	// a clause's own tags add properties; every obligation of a function also
+	// counts under each property the function's contract serves: the proof of
+	// any later obligation assumes this one
+	for _, dp := range x.defProps {
+		if !contains(o.Props, dp) {
+			o.Props = append(o.Props, dp)
+		}
 	}
 	x.em.oblige(o)
 }
